@@ -473,6 +473,14 @@ def generate(rng, index, tier, extra):  # pylint: disable=unused-argument
         path = paths[index % len(paths)]
         inputs = corpus.accepted_plus(path)[:48 if tier == 'thorough' else 24]
         return {'kind': 'purity', 'cls': path, 'inputs': [raw.hex() for raw in inputs]}
+    if extra and extra.get('phase') == 'edits':
+        # one class per run: each accepted input is edited in place the way a caller would (a fixed series of edit
+        # seeds), then observed by every observer around compose()
+        paths = corpus.class_paths()
+        path = paths[index % len(paths)]
+        inputs = corpus.accepted_plus(path)[:6 if tier == 'thorough' else 3]
+        return {'kind': 'editsweep', 'cls': path, 'inputs': [raw.hex() for raw in inputs],
+                'edit_seeds': 48 if tier == 'thorough' else 10}
     if extra and extra.get('phase') == 'pairs':
         # one class per history: its accepted inputs observed one after the other in one process (objects die and
         # new ones take their place), each compared with the same observation alone in a pristine process
@@ -561,7 +569,7 @@ def generate(rng, index, tier, extra):  # pylint: disable=unused-argument
 def needs_isolation(doc):
     """Runs that edit objects in place execute in a forked child: a shared default (the very defect
     this property is about) would otherwise leak from one run into the next."""
-    return doc['kind'] in ('defaults', 'buffer', 'purity') or (
+    return doc['kind'] in ('defaults', 'buffer', 'purity', 'editsweep') or (
         doc['kind'] == 'observe' and (doc['subject'][0] != 'corpus' or bool(doc.get('edits')) or bool(doc.get('grow'))))
 
 
@@ -583,6 +591,21 @@ def execute(doc):
         _exec_buffer(doc, res)
     elif kind == 'defaults':
         _exec_defaults(doc, res)
+    elif kind == 'editsweep':
+        calls = ['compose'] + list(SWEEP_CALLS) + ['compose'] + list(SWEEP_CALLS)
+        plan = doc.get('only') or [[number, seed] for number in range(len(doc['inputs'])) for seed in range(doc['edit_seeds'])]
+        for number, seed in plan:
+            before = len(res.violations)
+            _exec_observe({'kind': 'observe', 'subject': ['mutated', doc['cls'], doc['inputs'][number], []], 'calls': calls,
+                           'edits': [seed * 7919 + 13]}, res)
+            for violation in res.violations[before:]:
+                violation['case'] = [number, seed]
+            if res.violations:
+                break
+        res.sched_sig = ('editsweep', doc['cls'].rsplit('.', 1)[1], len(doc['inputs']))
+        res.nontrivial = bool(doc['inputs'])
+        res.stats['runs.edit_sweep_classes'] += 1
+        res.stats['edit_sweep_cases'] += len(plan)
     elif kind == 'purity':
         calls = list(SWEEP_CALLS) + ['compose'] + list(SWEEP_CALLS) + ['compose', 'repr'] + list(SWEEP_CALLS)
         for hexdata in doc['inputs']:
@@ -892,6 +915,12 @@ def shrink(doc, sig, budget):
             doc['tail'] = ''
     elif doc['kind'] == 'purity':
         doc['inputs'] = core.ddmin_list(doc['inputs'], lambda c: bool(c) and test_with(inputs=c), budget)
+    elif doc['kind'] == 'editsweep':
+        result = core.guarded_execute(me, doc)
+        for violation in result.violations:
+            if violation['sig'] == sig and 'case' in violation and test_with(only=[violation['case']]):
+                doc['only'] = [violation['case']]
+                break
     return doc
 
 
@@ -907,7 +936,8 @@ def check(tier, seed):
     n_runs, wall = BUDGET[tier]
     sweep = core.run_batch(me, seed, tier, len(corpus.class_paths()), 600.0, {'phase': 'sweep'}, chunk=4)
     pairs = core.run_batch(me, seed, tier, len(corpus.class_paths()), 600.0, {'phase': 'pairs'}, chunk=2)
-    batch = core.merge_batches([sweep, pairs, core.run_batch(me, seed, tier, n_runs, wall, extra), histories])
+    edits = core.run_batch(me, seed, tier, len(corpus.class_paths()), 900.0, {'phase': 'edits'}, chunk=2)
+    batch = core.merge_batches([sweep, pairs, edits, core.run_batch(me, seed, tier, n_runs, wall, extra), histories])
     coverage = core.coverage_from_batch(
         batch, RULE,
         fault_kinds=('observer_call_failed', 'buffer_overwrite', 'buffer_fill', 'buffer_clear', 'buffer_extend',
